@@ -239,7 +239,7 @@ def stage_multi(wd, V, rng, tier, pid):
 
 def stage_fidelity(wd, V, rng, tier):
     """C01 over SSH: plain mode, one server: stdout is the file, byte for byte (lines beyond one and two transport reads,
-    no final newline, arbitrary bytes except 0xAC and a leading '.', which are the open findings)"""
+    no final newline, arbitrary bytes except 0xAC, which is an open finding; lines beginning with a dot included)"""
     runs = 0
     cl = Cluster(wd, 1)
     try:
@@ -253,8 +253,10 @@ def stage_fidelity(wd, V, rng, tier):
                 line = bytes(rng.choice([b for b in range(256) if b not in (0x0A, 0xAC)]) for _ in range(min(n, 200)))
                 if n > 200:
                     line = (line * (n // len(line) + 1))[:n]
-                if line.startswith(b"."):
-                    line = b"x" + line[1:]
+                if rng.random() < 0.15:
+                    line = b"." + line        # lines beginning with a dot are content like any other
+                if line.startswith(b".syn close connection"):
+                    line = b"x" + line        # (open finding KF_SynTextInContent, pinned elsewhere)
                 parts.append(line)
             data = b"\n".join(parts) + (b"\n" if rng.random() < 0.6 else b"")
             path = os.path.join(d, "blob.log")
